@@ -206,6 +206,7 @@ type efNode struct {
 	start   int // instruction index to start at
 	tracked map[ssa.Value]bool
 	parent  *efNode
+	sup     bool // an earlier error of the enclosing function is known non-nil on this path (deferred-closure idiom)
 }
 
 func trackedKey(t map[ssa.Value]bool) string {
@@ -305,6 +306,11 @@ func (w *World) checkErrFlow(src errSource, nr *noReturnInfo) efResult {
 						delete(n.tracked, x.Addr)
 					}
 				}
+				// a function literal hands the error to the enclosing function's
+				// error variable (`defer func() { if cerr := f.Close(); err == nil { err = cerr } }()`)
+				if fv, isFV := x.Addr.(*ssa.FreeVar); isFV && isErrorPtr(fv.Type()) && aliasOf(x.Val, n.tracked) {
+					terminated = true
+				}
 			case *ssa.UnOp:
 				if x.Op == token.MUL && n.tracked[x.X] {
 					n.tracked[x] = true
@@ -329,6 +335,11 @@ func (w *World) checkErrFlow(src errSource, nr *noReturnInfo) efResult {
 					}
 				}
 				if okRet {
+					terminated = true
+					break
+				}
+				if !hasErrPos && n.sup {
+					// dropped in favour of an earlier error that is still reported
 					terminated = true
 					break
 				}
@@ -399,12 +410,20 @@ func (w *World) checkErrFlow(src errSource, nr *noReturnInfo) efResult {
 					}
 				}
 			}
-			st := errflowState{s, trackedKey(nt)}
+			sup := n.sup
+			if iff != nil && outerErrNonNilOn(iff.Cond, si) {
+				sup = true
+			}
+			key := trackedKey(nt)
+			if sup {
+				key += "|sup"
+			}
+			st := errflowState{s, key}
 			if seen[st] {
 				continue
 			}
 			seen[st] = true
-			work = append(work, &efNode{blk: s, start: 0, tracked: nt, parent: n})
+			work = append(work, &efNode{blk: s, start: 0, tracked: nt, parent: n, sup: sup})
 		}
 		if len(b.Succs) == 0 {
 			// block without successors that is neither return nor panic: unreachable code
@@ -412,6 +431,48 @@ func (w *World) checkErrFlow(src errSource, nr *noReturnInfo) efResult {
 		}
 	}
 	return efResult{ok: true}
+}
+
+func isErrorPtr(t types.Type) bool {
+	p, ok := t.Underlying().(*types.Pointer)
+	return ok && isErrorType(p.Elem())
+}
+
+// outerErrNonNilOn: on successor si of an If with this condition, is an error
+// variable captured from the enclosing function (a FreeVar of type *error) known
+// to be non-nil?
+func outerErrNonNilOn(cond ssa.Value, si int) bool {
+	truth := si == 0
+	for {
+		if u, ok := cond.(*ssa.UnOp); ok && u.Op == token.NOT {
+			cond = u.X
+			truth = !truth
+			continue
+		}
+		break
+	}
+	b, ok := cond.(*ssa.BinOp)
+	if !ok || (b.Op != token.EQL && b.Op != token.NEQ) {
+		return false
+	}
+	var v ssa.Value
+	if isNilConst(b.Y) {
+		v = b.X
+	} else if isNilConst(b.X) {
+		v = b.Y
+	} else {
+		return false
+	}
+	ld, ok := v.(*ssa.UnOp)
+	if !ok || ld.Op != token.MUL {
+		return false
+	}
+	fv, ok := ld.X.(*ssa.FreeVar)
+	if !ok || !isErrorPtr(fv.Type()) {
+		return false
+	}
+	// err != nil on the true edge, err == nil on the false edge
+	return (b.Op == token.NEQ) == truth
 }
 
 // classifyCond inspects an If condition with respect to the tracked error
